@@ -179,6 +179,16 @@ CLAIMED = {
             "repeated call, the unpickled model and the clone_with_fitted_parameters copy must all agree.",
             "balanced predictions of ConstraintKMeans are the documented exception and not exercised; a refusal of "
             "clone_with_fitted_parameters (RuntimeError) is not a violation."),
+    "C15": ("DESIGN 4/C15",
+            "TLA+ spec Wrappers (TransferTransformer machine: original vs working estimator, copy / alias, trainable; expected "
+            "outputs of recording members; negative run with a copy that shares state) + WrappersTrace on recording stubs",
+            "TLC checks Frozen, OriginalUntouched and TrainsLikeDirect for every (copy_estimator, trainable) and fit "
+            "history; wrappers are then exercised around recording stubs whose outputs are exact integers: every member's "
+            "training rows after wrapper.fit, every transform row against the specification's expected row (one member: "
+            "the chosen method as a column; several: the concatenation in list order), and for TransferTransformer the "
+            "rows the original and the working estimator have seen, object identity and both outputs.",
+            "stubs stand for the wrapped models; real scikit-learn models cover decision_function, transform and mixed "
+            "dtypes; the library's own refusal (AssertionError on tree estimators with copy_estimator=True) is skipped."),
 }
 
 PENDING_REASON = "check not built yet in this round (planned: see DESIGN.md section 4); not claimed until it runs"
